@@ -23,6 +23,10 @@ def frameKey (f : Nat) (asIndex : Bool) : Int := if asIndex then (f : Int) else 
     this branch reads `self.PixelData` (in memory) resp. hands `self.PixelRepresentation` to `decode_frame` (lazy), which a map
     stored in `FloatPixelData` / `DoubleFloatPixelData` does not have (open finding C19-float-frames-unreadable). -/
 def storedUncached (sk : Skel) (how : Holding) (o : PMObject) (k : Int) (asIndex : Bool) : Except ErrKind (List Cell) :=
+  -- both methods standardise the frame number first (`IndexError` beyond the image), then touch the element
+  match sk.index (o.numberOfFrames : Int) k asIndex with
+  | .error e => .error e
+  | .ok _ =>
   if o.element != "PixelData" then .error .attribute
   else
     let bits : Int := ((8 * o.itemsize : Nat) : Int)
